@@ -33,3 +33,34 @@ Definition dispatch_check (f : Z) (w : wire) : wire :=
       w_bool (accept_spec (r_ccfg c) (r_outcome g) (r_outcome gcc) (r_outcome r) (r_outcome rcc))
   | _, _ => w_err
   end%Z.
+
+From DD Require Import Model.Cli.
+Definition dispatch_cli (f : Z) (w : wire) : wire :=
+  match f, w with
+  | 45, WL [a; b; c; d; e; g; h; i] =>
+      let o := run_cli (mk_inv (r_bool a) (r_bool b) (r_bool c) (r_bool d) (r_bool e) (r_bool g) (r_bool h)
+                               (if r_bool i then Some TypeError else None)) in
+      WL [WN (exit_status o); w_nat (diagnostic_lines o)]
+  | _, _ => w_err
+  end%Z.
+
+From DD Require Import Model.FileProto.
+(* op wire: [0] open tmp | [1 chunk] write tmp | [2] close tmp | [3] rename | [4] unlink tmp | [5] open out trunc | [6 chunk] write out | [7] close out *)
+Definition r_op (w : wire) : op :=
+  match w with
+  | WL [WN 0%Z] => OOpenTmp | WL [WN 1%Z; c] => OWriteTmp (r_str c) | WL [WN 2%Z] => OCloseTmp
+  | WL [WN 3%Z] => ORename | WL [WN 4%Z] => OUnlinkTmp | WL [WN 5%Z] => OOpenOutTrunc
+  | WL [WN 6%Z; c] => OWriteOut (r_str c) | _ => OCloseOut
+  end.
+Definition w_ostr (o : option str) : wire := match o with Some s => WL [w_str s] | None => WL [] end.
+(* content of the output path after every prefix of the observed operation history *)
+Fixpoint out_trace (s : fs) (l : list op) : list wire :=
+  match l with
+  | [] => []
+  | o :: r => let s' := exec_op s o in w_ostr (f_out s') :: out_trace s' r
+  end.
+Definition dispatch_file (f : Z) (w : wire) : wire :=
+  match f, w with
+  | 46, WL [prev; ops] => WL (out_trace (mk_fs (r_ostr prev) None) (map r_op (r_list ops)))
+  | _, _ => w_err
+  end%Z.
